@@ -65,6 +65,11 @@ func (m *DomainMatcher) Add(labels [][]byte) {
 		if i == 0 { // is leaf
 			currentNode.AddLeaf(label)
 		} else {
+			if c, ok := currentNode.GetChild(label); ok && c == nil {
+				// An ancestor domain is already in the matcher and covers
+				// this one. Do not replace its leaf marker.
+				return
+			}
 			child := currentNode.GetOrAddChild(label)
 			currentNode = child
 		}
